@@ -318,6 +318,11 @@ func c12(r *hx.Run) {
 		err := cmd.Run()
 		timer.Stop()
 		buf, rerr := os.ReadFile(out)
+		if harnessFailure(err, rerr) {
+			// the child could not be started or its result file vanished: not an observation about pike
+			r.Inconclusive(fmt.Sprintf("child process could not be run: %v / %v", err, rerr))
+			continue
+		}
 		if err != nil || rerr != nil {
 			idx := int64(-1)
 			if pb, e := os.ReadFile(prog); e == nil && len(pb) >= 8 {
